@@ -799,22 +799,19 @@ func (e *env) bbListener(d caseDesc, form string) {
 		return
 	}
 	defer up.Close()
-	var fwdRec *recorder
-	fport := 0
-	if in.Fwd != "" || strings.Contains(in.Raw, "{F}") {
-		r, l, err := newStreamRecorder("tcp", "127.0.0.1:0", nil)
-		if err != nil {
-			e.rec.Inconclusive("recorder: "+err.Error(), d)
-			return
-		}
-		fwdRec, fport = r, l.Addr().(*net.TCPAddr).Port
-		defer r.Close()
+	fN := d.N*100 + len(form)
+	ft, err := e.forwardTarget(in, fN)
+	if err != nil {
+		e.rec.Inconclusive("recorder: "+err.Error(), d)
+		return
 	}
+	defer ft.Close()
+	fport := ft.Port()
 	for attempt := 0; attempt < 4; attempt++ {
 		p := freePort()
 		uniq := d.N*100 + attempt*10 + len(form)
 		a := resolve(in.Addr, p, fport, e.tmp, uniq)
-		fwd := resolve(in.Fwd, p, fport, e.tmp, uniq)
+		fwd := resolve(in.Fwd, p, fport, e.tmp, fN)
 		var nat *ref
 		var cli string
 		if in.Raw != "" {
@@ -918,10 +915,7 @@ func (e *env) bbListener(d caseDesc, form string) {
 			}
 			defer lc.Close()
 			lc.Write([]byte("ping"))
-			var fc <-chan flight
-			if fwdRec != nil {
-				fc = fwdRec.C
-			}
+			fc := ft.C()
 			var o obs
 			direct := false
 			select {
@@ -944,9 +938,7 @@ func (e *env) bbListener(d caseDesc, form string) {
 			e.rec.Stat("bb_probed_endpoints", 1)
 			e.judgeTransport(d, form, nat, a, o, &startObs{Input: cli, Natural: nat, Observed: &o, Flight: bo.Flight, Bound: target.String(), Expected: bo.Expected, Note: strings.Join(argv, " ")},
 				namedHit(dn, target.Addr, namedEndpoints(a, nat, e.tmp)))
-			if in.Class == "documented" && in.Fwd != "" && !direct {
-				e.viol(sigT(in, "forward-not-tried-first"), d, bo)
-			}
+			e.judgeForward(d, cli, fwd, ft, bo.Flight, direct, 1, bo)
 		}()
 		if !retry {
 			return
